@@ -985,6 +985,14 @@ impl Writer {
         // Update the ReaderProxy
         let last_seq = self.history_buffer.last_change_sequence_number(); // to avoid borrow problems
 
+        if !an.reader_sn_state.base().is_acceptable() {
+          warn!(
+            "Ignoring ACKNACK with implausible SequenceNumberSet base {:?}",
+            an.reader_sn_state.base()
+          );
+          return;
+        }
+
         // sanity check requested sequence numbers
         if let Some(0) = an.reader_sn_state.iter().next().map(i64::from) {
           warn!("Request for SN zero! : {:?}", an);
